@@ -94,12 +94,6 @@ def Item.Ok : Item → Prop
   | .word w => Word w
   | .quoted q s => isQuote q ∧ s ≠ [] ∧ (∀ b ∈ s, b ≠ 0 ∧ b ≠ q)
 
-/-- the extra condition under which the round trip holds for the code as it is (finding D10): a quoted
-    string does not *start* with a quote character -/
-def Item.NoNestedQuote : Item → Prop
-  | .word _ => True
-  | .quoted _ s => ∀ b, s.head? = some b → ¬ isQuote b
-
 /-- separator + item, for each argument after the command word -/
 def renderArgs : List (List Byte × Item) → List Byte
   | [] => []
